@@ -117,6 +117,16 @@ M = {
   ('rule entry ignores pos', 'sourcer/expressions/rule.py', "                out.RETURN(Code(f'_run({ctx}text, pos, {impl_name}, fullparse)'))", "                out.RETURN(Code(f'_run({ctx}text, pos if fullparse else 0, {impl_name}, fullparse)'))"),
   ('fullparse compares <=', 'sourcer/translator.py', "    if fullparse and pos < len(text):\n        line, col", "    if fullparse and pos < len(text) - (1 if text[-1:] in ('\\n', b'\\n') else 0):\n        line, col"),
  ],
+ 'C10': [
+  ('start line from end offset', 'sourcer/translator.py', "start=_Position(start, line_numbers[start], column_numbers[start])", "start=_Position(start, line_numbers[end], column_numbers[start])"),
+  ('end not decremented', 'sourcer/translator.py', "            start, end = pos_info\n            end -= 1", "            start, end = pos_info"),
+  ('visit dedup removed', 'sourcer/translator.py', "            if node_id in visited:\n                continue\n            visited.add(node_id)\n\n            yield node", "            visited.add(node_id)\n\n            yield node"),
+  ('span start after leading skip', 'sourcer/expressions/seq.py', "        if self.needs_parse_info:\n            start_pos = out.var('start_pos', POS)\n\n        cargs", "        cargs"),
+  ('span end before trailing skip... uses start of last member', 'sourcer/expressions/seq.py', "                out += RESULT._metadata.position_info << (start_pos, POS)", "                out += RESULT._metadata.position_info << (start_pos, POS if len(self.exprs) < 2 else Code('max(', start_pos, ' + 1, ', POS, ' - 1)'))"),
+  ('column off by one after newline', 'sourcer/translator.py', "            current_line += 1\n            current_column = 0", "            current_line += 1\n            current_column = 1"),
+  ('partial result not finalized', 'sourcer/translator.py', "    for node in visit(nodes):\n        pos_info = node._metadata.position_info", "    for node in (visit(nodes) if not (fullparse and pos < len(text)) else ()):\n        pos_info = node._metadata.position_info"),
+  ('finalize skips tuples', 'sourcer/translator.py', "        if isinstance(node, (list, tuple)):\n            stack.extend(reversed(node))\n\n        elif isinstance(node, dict):\n            stack.extend(reversed(node.values()))", "        if isinstance(node, list):\n            stack.extend(reversed(node))\n\n        elif isinstance(node, dict):\n            stack.extend(reversed(node.values()))"),
+ ],
  'C03': [
   ('sep drop pop', 'sourcer/expressions/sep.py', "                    with out.IF(staging):\n                        out += staging.pop()\n", "                    pass\n"),
   ('sep require_separator empty', 'sourcer/expressions/sep.py', "Code(f'not {staging} or {saw_separator}')", "Code(f'{saw_separator}')"),
